@@ -98,8 +98,8 @@ func (fc *FuncContract) HasSpec() bool {
 // arbitrary value of the ghost, hence hold for every value); wherever such a clause is assumed it is
 // additionally assumed with the ghost replaced by each of the expressions, evaluated at that point.
 type GhostInstance struct {
-	Ghost string
-	Exprs []Clause
+	Ghosts []string
+	Rows   [][]Clause // each row gives one expression per ghost
 }
 
 type Lemma struct {
@@ -401,21 +401,34 @@ func (cs *Contracts) LoadContractFile(path string, pkgShort string) error {
 			}
 			cur.ReadsOnly[strings.TrimSpace(r.text[:i])] = strings.Fields(r.text[i+1:])
 		case "instances":
-			// instances GHOST: expr; expr
+			// instances G1, G2: e1, e2; e1', e2'   (simultaneous instantiation of the listed ghosts)
 			ci := strings.Index(r.text, ":")
 			if ci < 0 || cur == nil {
-				return fmt.Errorf("%s:%d: instances GHOST: expr; expr (inside a func contract)", path, r.line)
+				return fmt.Errorf("%s:%d: instances GHOST[, GHOST]: expr[, expr]; ... (inside a func contract)", path, r.line)
 			}
-			gi := GhostInstance{Ghost: strings.TrimSpace(r.text[:ci])}
+			gi := GhostInstance{}
+			for _, g := range strings.Split(r.text[:ci], ",") {
+				gi.Ghosts = append(gi.Ghosts, strings.TrimSpace(g))
+			}
 			for _, part := range strings.Split(r.text[ci+1:], ";") {
-				cl, err := mkClause(rawClause{"instances", strings.TrimSpace(part), r.line})
+				tup, err := mkClause(rawClause{"instances", "tuple(" + strings.TrimSpace(part) + ")", r.line})
 				if err != nil {
 					return err
 				}
-				if mentionsIdent(cl.Expr, gi.Ghost) {
-					return fmt.Errorf("%s:%d: instance expression mentions the ghost %s itself", path, r.line, gi.Ghost)
+				call, ok := tup.Expr.(*ast.CallExpr)
+				if !ok || len(call.Args) != len(gi.Ghosts) {
+					return fmt.Errorf("%s:%d: instance %q does not give one expression per ghost", path, r.line, part)
 				}
-				gi.Exprs = append(gi.Exprs, cl)
+				var row []Clause
+				for _, a := range call.Args {
+					for _, g := range gi.Ghosts {
+						if mentionsIdent(a, g) {
+							return fmt.Errorf("%s:%d: instance expression mentions the ghost %s itself", path, r.line, g)
+						}
+					}
+					row = append(row, Clause{Expr: a, Src: strings.TrimSpace(part), File: path, Line: r.line})
+				}
+				gi.Rows = append(gi.Rows, row)
 			}
 			cur.Instances = append(cur.Instances, gi)
 		case "no-writes":
